@@ -12,7 +12,7 @@ RULE = (
     "distinct = hash of (family, shape/state); trivial = single node"
 )
 ASSUMPTIONS = ["depth <= 150 (deeper trees hit the interpreter recursion limit in height, which is Python's, not anytree's)"]
-GATES = ["mon.C04.node", "mon.C04.common", "C04.after_mutation", "C04.height_not_last_child", "C04.cross_tree_common"]
+GATES = ["mon.C04.node", "mon.C04.common", "C04.after_mutation", "C04.height_not_last_child", "C04.cross_tree_common", "C04.after_faulted_history"]
 
 
 def plan(tier, seed, jobs):
@@ -174,35 +174,22 @@ def run(ctx):
         ctx.case((fam, par), sample=case if r % 40 == 0 else None)
         ctx.count("C04.shape." + kind)
         check_universe(ctx, nodes, list(par), gen.children_of(par), case, util, rng=rng)
-    # mutation histories: values must be fresh immediately after any mutation
-    from .forest_engine import Engine
-
-    eng = Engine(ctx, (), faults=False)
+    # mutation histories (some calls aborted by a raising hook): values must be fresh immediately after any mutation
     nh = (3000 if T else 300) // ctx.nshards + 1
+    hfams = ("NM", "LM", "Node", "MIX", "VALNM", "VALLM", "FALSY")
     for h in range(nh):
         rng = ctx.rng("hist", h)
-        fam = ("NM", "LM", "Node", "MIX", "VALNM", "VALLM", "FALSY")[h % 7]
+        fam = hfams[h % len(hfams)]
         k = rng.randint(3, 10)
-        ch0 = gen.random_forest(rng, k)
-        rec = F.Rec(F.materialise(fam, ch0))
-        hist = []
-        for s in range(rng.randint(5, 30)):
-            snap = rec.snapshot()
-            call = eng.random_call(rng, k, [p for p, _ in snap], fam)
-            hist.append(F._jsonable(call))
-            F.run_call(rec, fam, call, F.NOPLAN, snaps_on=False)
-            snap = rec.snapshot()
-            from .. import model as M
-
-            if M.invariant(snap):
-                break
-            par = [p for p, _ in snap]
-            ch = [list(c) for _, c in snap]
-            case = {"family": fam, "state": [list(c) for c in ch0], "history": list(hist)}
+        step = 0
+        for nodes, par, ch, case in TR.evolving_universe(ctx, rng, fam, k, rng.randint(5, 30), fault_rate=(0.3 if h % 2 else 0.0)):
             ctx.case((fam, "hist", tuple(map(tuple, ch))), sample=None)
             ctx.count("C04.after_mutation")
-            if not check_universe(ctx, rec.nodes, par, ch, case, util, pairs=(s % 5 == 0), rng=rng):
+            if h % 2:
+                ctx.count("C04.after_faulted_history")
+            if not check_universe(ctx, nodes, par, ch, case, util, pairs=(step % 5 == 0), rng=rng):
                 break
+            step += 1
 
 
 def replay(ctx, wit):
@@ -215,11 +202,8 @@ def replay(ctx, wit):
     c = wit["case"]
     fam = c["family"]
     if "history" in c:
-        rec = F.Rec(F.materialise(fam, tup(c["state"])))
-        for call in c["history"]:
-            F.run_call(rec, fam, tup(call), F.NOPLAN, snaps_on=False)
-        snap = rec.snapshot()
-        check_universe(ctx, rec.nodes, [p for p, _ in snap], [list(x) for _, x in snap], c, util, rng=random.Random(0))
+        for nodes, par, ch in TR.replay_universe(c):
+            check_universe(ctx, nodes, par, ch, c, util, rng=random.Random(0))
     elif "par" in c:
         par = c["par"]
         check_universe(ctx, TR.build(par, fam), par, gen.children_of(par), c, util, rng=random.Random(0))
